@@ -37,12 +37,12 @@ def u (b : List Byte) (off n : Nat) : Nat := ofLE (seg b off n)
 def bextOfStruct (b : List Byte) : Bext × Nat :=
   ({ description := seg b 0 256, originator := seg b 256 32, originatorRef := seg b 288 32, date := seg b 320 10, time := seg b 330 8,
      timeLow := u b 340 4, timeHigh := u b 344 4, version := u b 348 2, umid := seg b 350 64,
-     loud := [u b 414 2, u b 416 2, u b 418 2, u b 420 2, u b 422 2], reserved := seg b 424 180, history := b.drop 608 },
+     l1 := u b 414 2, l2 := u b 416 2, l3 := u b 418 2, l4 := u b 420 2, l5 := u b 422 2, reserved := seg b 424 180, history := b.drop 608 },
    u b 604 4)
 
 def structOfBext (b : Bext) : List Byte :=
   b.description ++ b.originator ++ b.originatorRef ++ b.date ++ b.time ++ [0, 0] ++ le4 b.timeLow ++ le4 b.timeHigh ++ le2 b.version ++
-  b.umid ++ b.loud.flatMap le2 ++ b.reserved ++ le4 b.history.length ++ b.history
+  b.umid ++ le2 b.l1 ++ le2 b.l2 ++ le2 b.l3 ++ le2 b.l4 ++ le2 b.l5 ++ b.reserved ++ le4 b.history.length ++ b.history
 
 def cartOfStruct (b : List Byte) : Cart × Nat :=
   ({ head := seg b 0 748, reserved := seg b 748 276, url := seg b 1024 1024, tag := b.drop 2052 }, u b 2048 4)
